@@ -141,6 +141,19 @@ CLAIMS = {
         technique="path-sensitive must-fact dataflow with callee post-conditions, mod-set based invalidation and focus-preserving "
                   "disjunct reduction; CFG reachability between answer events",
         design="5 C14"),
+    "C16": dict(
+        text="Clause-level structural decision: in the server's ping and data handlers every state-changing effect (ack "
+             "processing, reassembly writes, hand-over of a full packet, holder stores, sends) is dominated by the negative "
+             "outcome of the answer cache and query-memory filters and lies behind both pending-duplicate tests; the sender "
+             "records every answer in both memories on every path, with the query answered and the payload sent, and the cache "
+             "accepts every size the sender can build; a cache hit replays the payload stored under the question that matched on "
+             "type and name; the data fingerprint saved and the one checked are the same function of the header characters "
+             "(both sides tabulated by constant evaluation) and case-insensitive, the ping fingerprint is the same Base32 "
+             "decoding on both sides, 4 bytes plus the record type are compared; ring indices wrap inside their arrays. Not "
+             "decided: whether the windows (4/15/30) suffice for a given replay pattern.",
+        technique="must-fact dataflow with history facts and dominator reasoning, callee summaries, tabulation of the two "
+                  "fingerprint routines by constant evaluation, table agreement of extents",
+        design="5 C16"),
 }
 
 NA = {
